@@ -101,6 +101,11 @@
   * `keepalive_none_after_close` none after `close_session`: nothing can follow Close Session
   * `keepalive_none_during_handshake`  none while a further handshake runs
   * `keepalive_asShipped_counterexample`  the pinned tree: establish, establish, close leaves the first thread running
+  * `credential_form_intended`  whatever FORM user name and password are configured in (None, str, bytes), the two
+                                16-byte fields are those of the bytes they stand for; no Python error
+  * `credential_form_fields`    … and for up to 16 bytes both fields are exactly 16 bytes, the bytes first, NUL after
+  * `credential_form_asShipped_counterexample`  the pinned tree: Session() untouched against MD5 → AttributeError
+                                after three datagrams; a bytes user name → TypeError after two
 -/
 import PyIpmi.Lemmas.SessionRun
 import PyIpmi.Lemmas.SessionFault
@@ -110,6 +115,7 @@ import PyIpmi.Lemmas.SessionMonitor
 import PyIpmi.Lemmas.SessionWire
 import PyIpmi.Lemmas.SessionHistory
 import PyIpmi.Model.SessionKeepAlive
+import PyIpmi.Model.SessionCred
 import PyIpmi.Model.Md5
 import PyIpmi.Model.SessionShape
 import PyIpmi.Gen.SessionShape
@@ -222,16 +228,19 @@ working tree (`Gen/SessionShape.lean`), are the ones the model `Session.establis
 been received, authentication type chosen before the challenge, temporary id before and granted id, initial
 sequence number and `activated` after Activate Session, the fields each request takes its values from, Close
 Session naming `self._session.sid`, the keep-alive callable.  Re-ordering a step or taking a value from another
-place regenerates the left-hand sides and this stops building. -/
+place regenerates the left-hand sides and this stops building.  `_get_session_challenge` has two accepted
+shapes: the intended one (fixes/C06-7) and the as-shipped one, which differ in the FORM of user name they accept
+only (`Model/SessionCred.lean`; which one the tree has is probed by the harness). -/
 theorem handshake_shape :
     PyIpmi.Gen.SessionShape.establishSession = PyIpmi.Session.Shape.establishSession ∧
     PyIpmi.Gen.SessionShape.closeSession = PyIpmi.Session.Shape.closeSession ∧
     PyIpmi.Gen.SessionShape.getChannelAuthCap = PyIpmi.Session.Shape.getChannelAuthCap ∧
-    PyIpmi.Gen.SessionShape.getSessionChallenge = PyIpmi.Session.Shape.getSessionChallenge ∧
+    (PyIpmi.Gen.SessionShape.getSessionChallenge = PyIpmi.Session.Shape.getSessionChallenge ∨
+     PyIpmi.Gen.SessionShape.getSessionChallenge = PyIpmi.Session.Shape.getSessionChallengeAsShipped) ∧
     PyIpmi.Gen.SessionShape.activateSession = PyIpmi.Session.Shape.activateSession ∧
     PyIpmi.Gen.SessionShape.setSessionPrivilegeLevel = PyIpmi.Session.Shape.setSessionPrivilegeLevel ∧
     PyIpmi.Gen.SessionShape.getDeviceId = PyIpmi.Session.Shape.getDeviceId :=
-  ⟨rfl, rfl, rfl, rfl, rfl, rfl, rfl⟩
+  ⟨rfl, rfl, rfl, by first | exact Or.inl rfl | exact Or.inr rfl, rfl, rfl, rfl⟩
 
 theorem auth_strength_order : implemented = [0, 4, 2] ∧ implOrder = [2, 4, 0] := by decide
 
@@ -909,5 +918,79 @@ theorem keepalive_asShipped_counterexample :
     (run false KeepAlive.init [.establish true, .establish true, .close]).running = [0] ∧
     (run false KeepAlive.init [.establish true, .close, .establish false, .close]).running = [] := by
   decide
+
+/-! ### credential form -/
+
+open PyIpmi.Session.Cred in
+/-- Intended variant: for EVERY form of user name and password - nothing configured (`None`, the default of
+`Session()`: the anonymous login), a `str`, a `bytes` object - and every authentication type, no Python error ends
+the handshake, and the user-name field of Get Session Challenge and the key of the authenticated datagrams are the
+ones the byte-level model (`userField`, `padPw`: the subject of every other theorem here) computes from the bytes
+the credentials stand for. -/
+theorem credential_form_intended (u p : Cred.Form) (auth : Nat) :
+    failsAfter intended u p auth = none ∧
+    userName intended u = .ok (userField u.denote) ∧
+    key intended p = .ok (padPw p.denote) := by
+  have hu : userName intended u = .ok (userField u.denote) := by
+    cases u with
+    | none => rfl
+    | str b => rfl
+    | bytes b =>
+      simp only [userName, intended, Form.denote]
+      split
+      · rename_i h; simp [userField, h]
+      · rfl
+  have hp : key intended p = .ok (padPw p.denote) := by
+    cases p <;> rfl
+  refine ⟨?_, hu, hp⟩
+  simp only [failsAfter, hu, hp]
+  split <;> rfl
+
+/-- The fields for credentials of up to 16 bytes: exactly 16 bytes, the credential first, NUL after it (IPMI v1.5
+Get Session Challenge / Activate Session: 16-byte user name, "all 0s for null user name"; 16-byte zero-padded key). -/
+theorem credential_form_fields (c : Cred.Form) (h : c.denote.length ≤ 16) :
+    (userField c.denote).length = 16 ∧ (padPw c.denote).length = 16 ∧
+    (userField c.denote).take c.denote.length = c.denote ∧ (padPw c.denote).take c.denote.length = c.denote ∧
+    (∀ i, c.denote.length ≤ i → i < 16 → (userField c.denote)[i]? = some 0 ∧ (padPw c.denote)[i]? = some 0) := by
+  generalize c.denote = bs at h
+  have hw : padWidth = 16 := rfl
+  have hf : padFill = 0 := rfl
+  refine ⟨?_, ?_, ?_, ?_, ?_⟩
+  · unfold userField; split
+    · simp
+    · simp; omega
+  · simp [padPw, hw]; omega
+  · unfold userField; split
+    · rename_i he; simp [List.isEmpty_iff] at he; simp [he]
+    · simp
+  · simp [padPw]
+  · intro i h1 h2
+    constructor
+    · unfold userField; split
+      · rw [List.getElem?_replicate]; simp [h2]
+      · rw [List.getElem?_append_right h1]; simp [List.getElem?_replicate]; omega
+    · unfold padPw; rw [List.getElem?_append_right h1, hw, hf]; simp [List.getElem?_replicate]; omega
+
+open PyIpmi.Session.Cred in
+/-- The pinned tree: `Session()` as `create_connection()` hands it out (no user, no password - the anonymous login)
+against a BMC whose strongest offered type is MD5 or straight password ends with AttributeError after ping,
+Get Channel Authentication Capabilities and Get Session Challenge - Activate Session cannot be packed
+(findings/c06/round3/finding_1); it works only when `none` is chosen.  A user name given as `bytes` (what
+tests/interfaces/test_rmcp.py configures) ends with TypeError before Get Session Challenge (finding_2), whatever
+the BMC offers. -/
+theorem credential_form_asShipped_counterexample :
+    failsAfter asShipped .none .none 2 = some (3, .attributeError) ∧
+    failsAfter asShipped .none .none 4 = some (3, .attributeError) ∧
+    failsAfter asShipped .none .none 0 = none ∧
+    failsAfter asShipped (.str [0x61, 0x64, 0x6d, 0x69, 0x6e]) .none 2 = some (3, .attributeError) ∧
+    failsAfter asShipped (.bytes [0x61, 0x64, 0x6d, 0x69, 0x6e]) (.bytes [0x61, 0x64, 0x6d, 0x69, 0x6e]) 0
+      = some (2, .typeError) ∧
+    failsAfter asShipped (.str [0x61, 0x64, 0x6d, 0x69, 0x6e]) (.bytes [0x61, 0x64, 0x6d, 0x69, 0x6e]) 2 = none ∧
+    failsAfter asShipped (.str []) (.str []) 2 = none := by
+  decide
+
+/-- non-vacuity: the anonymous login in the intended variant has the two all-zero fields -/
+example : Cred.userName Cred.intended .none = .ok (List.replicate 16 0) ∧
+    Cred.key Cred.intended .none = .ok (List.replicate 16 0) := ⟨rfl, rfl⟩
 
 end PyIpmi.Props.C06
